@@ -311,3 +311,125 @@ def _replay_retrace(run, scratch, rec):
 for _k in ["entries1", "entries_quick", "entries_thorough", "files_quick", "files_thorough", "blocks_quick",
            "blocks_thorough", "records_quick", "records_thorough", "names_quick", "names_thorough"]:
     REPLAYERS["MC_Retrace_" + _k] = _replay_retrace
+
+
+# ---------------------------------------------------------------------------------------------
+# C07, C08, C16, C17: stack traces and descriptors
+# ---------------------------------------------------------------------------------------------
+def mc_trace(run, scratch, cfgname, kind, want_key="want", workers=10, timeout=3000, module="MC_Trace", corrupt=None):
+    name = f"{module}_{cfgname}" if cfgname else module
+    raw = tlc_cases(run, scratch, name, module, cfg=name + ".cfg", workers=workers, timeout=timeout)
+    header = [c for c in raw if "mapping" in c]
+    cases = [c for c in raw if "mapping" not in c]
+    if not cases:
+        return []
+    replay_cases(run, scratch, name, cases, kind, header=header, want_key=want_key, corrupt=corrupt)
+    return cases
+
+
+def expect_counterexample(run, scratch, module, cfg, what):
+    """A named deviation of the spec (the pinned snapshot's behaviour) must still be refuted by TLC:
+    guards against a model that has lost the ability to see the defect."""
+    r = run_tlc(scratch, module, cfg=cfg, workers=4, timeout=600)
+    if not r.violation:
+        raise ToolError(f"{cfg}: the model no longer exhibits {what}")
+    run.steps.append({"step": cfg, "expected_counterexample_found": True, "states_generated": r.generated})
+
+
+def text_trace(run, scratch, name, focus, n, per, corrupt, pred, workers=10, files=None):
+    events = harness_trace(scratch, "text", name, ["--seed", run.seed, "--n", n, "--queries", per, "--focus", focus,
+                                                    "--files", ",".join(files or [])])
+    validate_pure_trace(run, scratch, name, "Trace_Text", events, workers=workers, timeout=3000, corrupt=corrupt,
+                        canary_pred=pred, signature=lambda ev: {"event": ev.get("t")})
+    return events
+
+
+def _c07_corrupt(ev):
+    for h in ("mapper", "cache"):
+        ev["out"][h] = ev["out"][h] + [88]
+    return ev
+
+
+@prop("C07")
+def c07(run, scratch):
+    t = run.tier == "thorough"
+    for cfg in (["text_thorough", "text_rich"] if t else ["text_quick"]):
+        cases = mc_trace(run, scratch, cfg, "text", workers=14 if t else 10)
+        if cases:
+            c = cases[len(cases) // 2]
+            run.sample({"text": b2s(c["text"]), "spec_output": b2s(c["want"]["mapped"])})
+    ev = text_trace(run, scratch, "Trace_Text_text", "text", 150 if t else 30, 40, _c07_corrupt,
+                    lambda e: e["t"] == "text" and len(e["text"]) > 0, workers=14 if t else 10, files=SMALL_CORPUS[:2])
+    e = next(x for x in ev if x["t"] == "text" and x["text"])
+    run.sample({"trace_event": {"text": b2s(e["text"]), "mapper_output": b2s(e["out"]["mapper"])}})
+    run.exhaustive = False
+    run.assumptions += COMMON_ASSUME + ["line classification is hybrid: spec-recognised lines must be recognised identically "
+                                        "by the public parsers; other lines are taken as the public parsers classified them"]
+
+
+def _c08_corrupt(ev):
+    lv = ev["out"]["mapper"]["typed"]
+    dummy = {"class": [120], "method": [121], "line": [7], "file": [], "params": []}
+    lv[0]["frames"] = lv[0]["frames"] + [dummy]
+    return ev
+
+
+@prop("C08")
+def c08(run, scratch):
+    t = run.tier == "thorough"
+    expect_counterexample(run, scratch, "MC_Trace", "MC_Trace_typed_pinned.cfg", "the dropped unmapped exception")
+    def corrupt(c):
+        c["want"]["typed"] = c["want"]["typed"] + [{"exception": [], "frames": []}]
+        return c
+    cases = mc_trace(run, scratch, "typed_thorough" if t else "typed_quick", "typed", workers=14 if t else 10,
+                     corrupt=corrupt)
+    if cases:
+        c = cases[len(cases) // 2]
+        run.sample({"levels": c["levels"], "spec_typed": c["want"]["typed"]})
+    text_trace(run, scratch, "Trace_Text_typed", "typed", 150 if t else 30, 40, _c08_corrupt,
+               lambda e: e["t"] == "typed", workers=14 if t else 10, files=SMALL_CORPUS[:2])
+    run.exhaustive = False
+    run.assumptions += COMMON_ASSUME
+
+
+def _c17_corrupt(ev):
+    ev["got"]["reprint_same"] = False
+    return ev
+
+
+@prop("C17")
+def c17(run, scratch):
+    t = run.tier == "thorough"
+    for cfg in (["roundtrip_rich", "roundtrip_deep"] if t else ["roundtrip_quick"]):
+        cases = mc_trace(run, scratch, cfg, "roundtrip", workers=14 if t else 10)
+        if cases:
+            c = cases[len(cases) // 2]
+            run.sample({"levels": c["levels"]})
+    text_trace(run, scratch, "Trace_Text_rt", "rt", 40 if t else 10, 300 if t else 150, _c17_corrupt,
+               lambda e: e["t"] == "rt", workers=14 if t else 10)
+    run.exhaustive = False
+    run.assumptions += COMMON_ASSUME + ["domain of the law: top level carries an exception or a frame; cause levels carry an "
+                                        "exception; frames carry a file (StackTraceSyntax!TraceOk)"]
+
+
+def _c16_corrupt(ev):
+    v = [] if ev["out"]["mapper"] else [{"params": [], "ret": [86], "formatted": [40, 41]}]
+    ev["out"]["mapper"] = v
+    ev["out"]["cache"] = v
+    return ev
+
+
+@prop("C16")
+def c16(run, scratch):
+    t = run.tier == "thorough"
+    cases = mc_trace(run, scratch, "thorough" if t else "", "signature", workers=14 if t else 10, module="MC_Signature")
+    for c in cases[:1] + cases[-1:]:
+        run.sample({"descriptor": b2s(c["sig"]), "class": c["class"], "spec_result": c["want"]})
+    text_trace(run, scratch, "Trace_Text_sig", "sig", 60 if t else 15, 300 if t else 150, _c16_corrupt,
+               lambda e: e["t"] == "sig" and e["out"]["mapper"] == [] and not b2s(e["sig"]).startswith("("),
+               workers=14 if t else 10)
+    run.exhaustive = False
+    run.assumptions += COMMON_ASSUME
+
+
+REPLAYERS["MC_Signature"] = lambda run, scratch, rec: replay_cases(run, scratch, "MC_Signature", [rec["case"]], "signature")
